@@ -123,6 +123,7 @@ class Program:
         self.ops = set()
         self.hazards = []      # per statement list of classes
         self.uid = 0
+        self.tag = None        # directed programs of the audit families: key suffix `eager:<tag>`
 
     def fresh(self, prefix):
         self.uid += 1
@@ -416,7 +417,7 @@ class Gen:
         for k in range(nst):
             if force and k == 0:
                 self.forced_statement(P, force)
-                if force.startswith("rt:") or force == "a/=2":
+                if force.startswith("rt:") or force.startswith("x:") or force == "a/=2":
                     break
                 continue
             sh = rng.choice([("vec", 2), ("vec", 3), ("vec", 3), ("mat", 2, 2), ("mat", 2, 3), ("mat", 3, 3),
@@ -526,9 +527,250 @@ class Gen:
             P.stmts.append(("%s /= %d;" % (a1, k), v1, "/=", ("c", Fraction(k))))
         elif what.startswith("rt:"):
             self.runtime_statement(P, what[3:])
+        elif what.startswith("x:"):
+            P.tag = what[2:]
+            getattr(self, "x_" + what[2:].replace("-", "_"))(P)
         else:
             raise ValueError(what)
         P.ops.add(what)
+
+    # ---------------------------------------------------------- directed programs of rarely used entry points
+    # (one program per family, every run: element access of lazy expressions, diadic product, eager tmatrix/tvector
+    # functions, constructors/import/fill, array-index access, runtime views, const views, view-to-view assignment)
+    def sym_scalar(self, P):
+        name = "k%d" % len(P.scalars)
+        P.scalars.append(name)
+        P.decls.append("const Sym %s = verif::scalar_input(\"%s\", %s);" % (name, name, repr(1.25 + 0.5 * len(P.scalars))))
+        return name, ("in", name)
+
+    def own(self, P, *sh):
+        o = self.owned(P, tuple(sh))
+        P.operands.append(o)
+        return o
+
+    @staticmethod
+    def cellop(storage, k, cxx):
+        return Operand(cxx, ("cell",), [(storage, k)], True, "cell")
+
+    def set_cell(self, P, o, k, rhs_cxx, tree):
+        """`o[k] = rhs;` (vectors) / `o(i, j) = rhs;` (matrices): one storage cell receives one scalar"""
+        if o.shape[0] == "mat":
+            lhs = "%s(%d, %d)" % (o.cxx, k // o.shape[2], k % o.shape[2])
+        else:
+            lhs = "%s[%d]" % (o.cxx, k)
+        P.stmts.append(("%s = %s;" % (lhs, rhs_cxx), self.cellop(o.cells[k][0], o.cells[k][1], lhs), "=", tree))
+
+    def x_expr_access(self, P):
+        L = lambda o: ("leaf", o)
+        u, v, w = self.own(P, "vec", 3), self.own(P, "vec", 3), self.own(P, "vec", 8)
+        m, n, r = self.own(P, "mat", 2, 3), self.own(P, "mat", 2, 3), self.own(P, "mat", 2, 3)
+        s1, s2 = self.own(P, "st", 2), self.own(P, "st", 2)
+        k, tk = self.sym_scalar(P)
+        two = ("c", Fraction(2))
+        e1 = P.fresh("e")
+        P.decls.append("const auto %s = %s * %s;" % (e1, m.cxx, u.cxx))
+        U, V, M, N, S1, S2 = u.cxx, v.cxx, m.cxx, n.cxx, s1.cxx, s2.cxx
+        for (o, d, cxx, t, c) in [
+                (w, 0, "(%s + %s)[2]" % (U, V), ("add", L(u), L(v)), 2),            # BinaryOperation operator[]
+                (w, 1, "(%s * %s)[1]" % (k, U), ("smul", tk, L(u)), 1),             # ScalarObjectOperation operator[]
+                (w, 2, "(%s / %s)[0]" % (U, k), ("divs", L(u), tk), 0),             # ObjectScalarOperation operator[]
+                (w, 3, "(-%s)[1]" % U, ("neg", L(u)), 1),                           # UnaryOperation operator[]
+                (w, 4, "(%s - %s)(2)" % (U, V), ("sub", L(u), L(v)), 2),            # BinaryOperation operator()
+                (w, 5, "%s[1]" % e1, ("matvec", L(m), L(u)), 1),                    # generic Expr operator[] const
+                (w, 6, "(%s + %s)[3]" % (S1, S2), ("add", L(s1), L(s2)), 3),
+                (w, 7, "(2 * %s)(1)" % S1, ("smul", two, L(s1)), 1),
+                (r, 1, "(%s + %s)(1, 0)" % (M, N), ("add", L(m), L(n)), 3),
+                (r, 5, "(-%s)(0, 2)" % M, ("neg", L(m)), 2),
+                (r, 0, "(%s * %s)(1, 1)" % (k, M), ("smul", tk, L(m)), 4),
+                (r, 4, "(%s * %s)(0, 1)" % (M, k), ("smul", tk, L(m)), 1),
+                (r, 2, "(%s / %s)(1, 2)" % (M, k), ("divs", L(m), tk), 5),
+                (r, 3, "(%s * %s)[2]" % (U, k), ("smul", tk, L(u)), 2)]:
+            self.set_cell(P, o, d, cxx, ("comp", t, c))
+
+    def x_diadic_det_cross(self, P):
+        L = lambda o: ("leaf", o)
+        u, v = self.own(P, "vec", 2), self.own(P, "vec", 3)
+        m, n, t = self.own(P, "mat", 2, 3), self.own(P, "mat", 2, 3), self.own(P, "mat", 3, 2)
+        a, b, c = self.own(P, "mat", 3, 3), self.own(P, "mat", 2, 2), self.own(P, "mat", 2, 2)
+        x, y, w, p = self.own(P, "vec", 3), self.own(P, "vec", 3), self.own(P, "vec", 6), self.own(P, "vec", 2)
+        two = ("c", Fraction(2))
+        dia = ("diadic", L(u), L(v))
+        P.stmts.append(("%s = %s ^ %s;" % (m.cxx, u.cxx, v.cxx), m, "=", dia))
+        P.stmts.append(("%s += 2 * (%s ^ %s);" % (n.cxx, u.cxx, v.cxx), n, "+=", ("smul", two, dia)))
+        P.stmts.append(("%s = transpose(%s);" % (t.cxx, m.cxx), t, "=", ("mtranspose", L(m), 2, 3)))
+        self.set_cell(P, w, 0, "det(%s)" % a.cxx, ("det", L(a)))
+        self.set_cell(P, w, 1, "det(%s)" % b.cxx, ("det", L(b)))
+        self.set_cell(P, w, 2, "det(%s + %s)" % (b.cxx, c.cxx), ("det", ("add", L(b), L(c))))
+        self.set_cell(P, w, 3, "det(2 * %s)" % a.cxx, ("det", ("smul", two, L(a))))
+        self.set_cell(P, w, 4, "(%s ^ %s)(1, 2)" % (u.cxx, v.cxx), ("comp", dia, 5))
+        P.stmts.append(("%s = cross_product(%s, %s);" % (x.cxx, v.cxx, y.cxx), x, "=", ("cross", L(v), L(y))))
+        P.stmts.append(("%s = cross_product(%s, %s);" % (y.cxx, u.cxx, p.cxx), y, "=", ("cross", L(u), L(p))))
+
+    def snapshot(self, P, w, r, off):
+        n = len(w.cells)
+        cxx = " ".join("%s[%d] = %s[%d];" % (r.cxx, off + i, w.cxx, i) for i in range(n))
+        dest = Operand(r.cxx, ("vec", n), [r.cells[off + i] for i in range(n)], True, "cells")
+        P.stmts.append((cxx, dest, "=", ("list", [("cell", c) for c in w.cells])))
+
+    def x_ctors_vec(self, P):
+        u, v, w, r = self.own(P, "vec", 3), self.own(P, "vec", 3), self.own(P, "vec", 3), self.own(P, "vec", 30)
+        b = self.buffer(P, 8)
+        f = self.new_storage(P, "fsarray<3, Sym> %(n)s;", 3, "verif::fill_inputs(%(n)s, \"%(n)s\", 3);", "c17::out1(\"%(n)s\", %(n)s, 3);")
+        k, tk = self.sym_scalar(P)
+        C = lambda o, i: ("cell", o.cells[i])
+        B = lambda i: ("cell", (b, i))
+        T, W, U, V = "tvector<3, Sym>", w.cxx, u.cxx, v.cxx
+        forms = [
+            ("%s = %s(%s);" % (W, T, U), [C(u, 0), C(u, 1), C(u, 2)]),                                   # copy constructor, move assignment
+            ("%s = %s(%s + %s);" % (W, T, U, V), [("add", C(u, i), C(v, i)) for i in range(3)]),       # constructor from an expression
+            ("%s = %s{%s[0], %s[1], %s[2]};" % (W, T, U, V, U), [C(u, 0), C(v, 1), C(u, 2)]),          # initializer list (import)
+            ("%s = %s(%s);" % (W, T, k), [tk] * 3),                                                     # value constructor (fill)
+            ("%s = %s{%s};" % (W, T, k), [tk] * 3),                                                     # initializer list of size 1 (fill)
+            ("%s = %s(%s + 2);" % (W, T, b), [B(2), B(3), B(4)]),                                       # constructor from a pointer (import)
+            ("%s = {%s[2], %s[0], %s[1]};" % (W, V, V, V), [C(v, 2), C(v, 0), C(v, 1)]),                # operator=(initializer_list)
+            ("%s.fill(%s);" % (W, k), [tk] * 3),
+            ("%s = %s(%s);" % (W, T, f), [("cell", (f, i)) for i in range(3)]),                          # tvector(const fsarray&)
+            ("%s.copy(%s + 1);" % (W, b), [B(1), B(2), B(3)])]
+        for i, (cxx, items) in enumerate(forms):
+            P.stmts.append((cxx, w, "=", ("list", items)))
+            self.snapshot(P, w, r, 3 * i)
+
+    def x_ctors_mat(self, P):
+        u, v = self.own(P, "vec", 3), self.own(P, "vec", 3)
+        b = self.buffer(P, 8)
+        mm, m2, m3, m4 = self.own(P, "mat", 2, 3), self.own(P, "mat", 2, 2), self.own(P, "mat", 2, 2), self.own(P, "mat", 2, 3)
+        m5, m6 = self.own(P, "mat", 3, 2), self.own(P, "mat", 2, 2)
+        w, x, y, z = self.own(P, "vec", 3), self.own(P, "vec", 3), self.own(P, "vec", 2), self.own(P, "vec", 1)
+        k, tk = self.sym_scalar(P)
+        C = lambda o, i: ("cell", o.cells[i])
+        B = lambda i: ("cell", (b, i))
+        U, V = u.cxx, v.cxx
+        one, zero = ("c", Fraction(1)), ("c", Fraction(0))
+        for (cxx, dest, items) in [
+                ("%s = tmatrix<2, 3, Sym>{%s[0], %s[1], %s[2], %s[0], %s[1], %s[2]};" % (mm.cxx, U, U, U, V, V, V), mm,
+                 [C(u, 0), C(u, 1), C(u, 2), C(v, 0), C(v, 1), C(v, 2)]),                               # row major import
+                ("%s = tmatrix<2, 2, Sym>({%s[0], %s[1]}, {%s[0], %s[1]});" % (m2.cxx, U, U, V, V), m2,
+                 [C(u, 0), C(u, 1), C(v, 0), C(v, 1)]),                                                 # constructor from rows
+                ("%s = tmatrix<2, 2, Sym>::Id();" % m3.cxx, m3, [one, zero, zero, one]),
+                ("%s = {%s[0], %s[1], %s[2], %s[0], %s[1], %s[2]};" % (m4.cxx, V, V, V, U, U, U), m4,
+                 [C(v, 0), C(v, 1), C(v, 2), C(u, 0), C(u, 1), C(u, 2)]),
+                ("%s.swap_rows(0, 1);" % m4.cxx, m4, [C(m4, 3), C(m4, 4), C(m4, 5), C(m4, 0), C(m4, 1), C(m4, 2)]),
+                # (tmatrix::copy, max, abs_max are not instantiable with g++ 12: `this->size()` as template argument)
+                ("%s = tmatrix<3, 2, Sym>(%s + 1);" % (m5.cxx, b), m5, [B(i) for i in range(1, 7)]),          # pointer constructor (import)
+                ("%s = tmatrix<2, 2, Sym>(%s);" % (m6.cxx, k), m6, [tk] * 4),
+                ("%s = makeTVector3D(%s[0], %s[1], %s);" % (w.cxx, U, V, k), w, [C(u, 0), C(v, 1), tk]),
+                ("%s = map([](const Sym& a_) { return a_ * a_; }, %s);" % (x.cxx, U), x, [("mul", C(u, i), C(u, i)) for i in range(3)]),
+                ("%s = makeTVector2D(%s[2], %s[0]);" % (y.cxx, V, U), y, [C(v, 2), C(u, 0)]),
+                ("%s = makeTVector1D(%s[1]);" % (z.cxx, U), z, [C(u, 1)]),
+                ("exportToBaseTypeArray(%s, %s + 3);" % (V, b), Operand(b, ("vec", 3), [(b, 3), (b, 4), (b, 5)], True, "cells"),
+                 [C(v, 0), C(v, 1), C(v, 2)])]:
+            P.stmts.append((cxx, dest, "=", ("list", items)))
+
+    def x_array_index(self, P):
+        u, w = self.own(P, "vec", 3), self.own(P, "vec", 3)
+        m, n = self.own(P, "mat", 2, 3), self.own(P, "mat", 2, 3)
+        b = self.buffer(P, 12)
+        P.decls += [
+            "using ix1 = std::array<typename tvector<3, Sym>::size_type, 1>;",
+            "using ix2 = std::array<typename tmatrix<2, 3, Sym>::size_type, 2>;",
+            "auto a1 = map<tvector<3, Sym>, FixedSizeVectorIndexingPolicy<unsigned short, 3, 2>>(%s + 1);" % b,
+            "using jx = std::array<typename decltype(a1)::size_type, 1>;",
+            "auto a2 = map_strided<tvector<3, Sym>>(%s + 1, 4);" % b,
+            "using kx = std::array<typename decltype(a2)::size_type, 1>;",
+            "std::array<Sym*, 3> a3_p{&%s[10], &%s[0], &%s[7]};" % (b, b, b),
+            "auto a3 = map<tvector<3, Sym>>(a3_p);",
+            "using lx = std::array<typename decltype(a3)::size_type, 1>;"]
+        P.kinds |= {"view:strided", "view:strided_coalesced", "view:coalesced"}
+        for (cxx, dc, sc) in [
+                ("%s[ix1{1}] = std::as_const(%s)[ix1{2}];" % (w.cxx, u.cxx), w.cells[1], u.cells[2]),
+                ("%s(ix1{0}) = std::as_const(%s)(ix1{1});" % (w.cxx, u.cxx), w.cells[0], u.cells[1]),
+                ("%s(ix2{1, 0}) = std::as_const(%s)(ix2{0, 2});" % (n.cxx, m.cxx), n.cells[3], m.cells[2]),
+                ("%s[ix2{1, 1}] = std::as_const(%s)[ix2{0, 1}];" % (n.cxx, m.cxx), n.cells[4], m.cells[1]),
+                ("a1(jx{1}) = std::as_const(a1)(jx{2});", (b, 3), (b, 5)),
+                ("a2(kx{2}) = std::as_const(a2)(kx{1});", (b, 9), (b, 5)),
+                ("a3(lx{0}) = std::as_const(a3)(lx{2});", (b, 10), (b, 7))]:
+            P.stmts.append((cxx, self.cellop(dc[0], dc[1], cxx), "=", ("list", [("cell", sc)])))
+
+    def x_runtime_view(self, P):
+        """View with a runtime indexing policy (map<vector<T>>(size, pointer)): IndexingPolicies.ixx
+        buildIndexingPolicyAndExtractPointerToData, View(pointer, policy)"""
+        b = self.buffer(P, 10)
+        k, tk = self.sym_scalar(P)
+        P.decls += ["auto a1 = map<vector<Sym>>(3, %s + 2);" % b,
+                    "auto a2 = map<const vector<Sym>>(3, static_cast<const Sym*>(%s) + 6);" % b]
+        a1 = Operand("a1", ("arr", "vector", 3), [(b, 2 + i) for i in range(3)], True, "view:runtime")
+        a2 = Operand("a2", ("arr", "vector", 3), [(b, 6 + i) for i in range(3)], False, "view:runtime")
+        P.operands += [a1, a2]
+        P.kinds.add("view:runtime")
+        L = lambda o: ("leaf", o)
+        P.stmts.append(("a1 = a1 + a2;", a1, "=", ("add", L(a1), L(a2))))
+        P.stmts.append(("a1 *= %s;" % k, a1, "*=", tk))
+        P.stmts.append(("a1 -= a2;", a1, "-=", L(a2)))
+
+    def x_const_views(self, P):
+        z, u, p, q = self.own(P, "vec", 8), self.own(P, "vec", 3), self.own(P, "vec", 2), self.own(P, "vec", 2)
+        n, s, m = self.own(P, "mat", 2, 2), self.own(P, "st", 2), self.own(P, "mat", 3, 3)
+        Z, M = z.cxx, m.cxx
+        P.decls += [
+            "auto a1 = std::as_const(%s).slice<1, 4>();" % Z,
+            "auto a2 = std::as_const(%s).slice<5>();" % Z,
+            "auto a3 = map<stensor<2, Sym>>(%s);" % Z,
+            "auto a4 = map<const stensor<2, Sym>>(std::as_const(%s));" % Z,
+            "auto va = map<2, tvector<2, Sym>, 1, 3>(std::as_const(%s));" % Z,
+            "auto a5 = va[1];",
+            "auto a6 = std::as_const(%s).column_view<1, 0, 2>();" % M,
+            "auto a7 = std::as_const(%s).row_view<2, 1, 2>();" % M,
+            "auto a8 = std::as_const(%s).submatrix_view<1, 0, 2, 2>();" % M]
+        zc = lambda *ks: [(z.storage, k_) for k_ in ks]
+        mc = lambda *ks: [(m.storage, k_) for k_ in ks]
+        a1 = Operand("a1", ("vec", 3), zc(1, 2, 3), False, "view:slice")
+        a2 = Operand("a2", ("vec", 3), zc(5, 6, 7), False, "view:slice")
+        a3 = Operand("a3", ("st", 2), zc(0, 1, 2, 3), True, "view:map_tvector")
+        a4 = Operand("a4", ("st", 2), zc(0, 1, 2, 3), False, "view:map_tvector")
+        a5 = Operand("a5", ("vec", 2), zc(4, 5), False, "view:viewsarray")
+        a6 = Operand("a6", ("vec", 2), mc(1, 4), False, "view:colslice")
+        a7 = Operand("a7", ("vec", 2), mc(7, 8), False, "view:rowslice")
+        a8 = Operand("a8", ("mat", 2, 2), mc(3, 4, 6, 7), False, "view:submatrix")
+        P.operands += [a1, a2, a3, a4, a5, a6, a7, a8]
+        P.kinds |= {"view:slice", "view:map_tvector", "view:viewsarray", "view:colslice", "view:rowslice", "view:submatrix"}
+        L = lambda o: ("leaf", o)
+        two = ("c", Fraction(2))
+        P.stmts.append(("%s = a1 + a2;" % u.cxx, u, "=", ("add", L(a1), L(a2))))
+        P.stmts.append(("%s = a5 + a6;" % p.cxx, p, "=", ("add", L(a5), L(a6))))
+        P.stmts.append(("%s = a7 - a6;" % q.cxx, q, "=", ("sub", L(a7), L(a6))))
+        P.stmts.append(("%s = 2 * a8;" % n.cxx, n, "=", ("smul", two, L(a8))))
+        P.stmts.append(("a3 = a4 + %s;" % s.cxx, a3, "=", ("add", L(a4), L(s))))
+
+    def x_view_assign(self, P):
+        b = self.buffer(P, 24)
+        k, tk = self.sym_scalar(P)
+        P.decls += [
+            "auto a1 = map<tvector<3, Sym>>(%s + 0);" % b,
+            "auto a2 = map<tvector<3, Sym>>(%s + 4);" % b,
+            "auto a3 = map<tvector<3, Sym>>(%s + 8);" % b,
+            "std::array<Sym*, 3> c1_p{&%s[12], &%s[3], &%s[14]};" % (b, b, b),
+            "std::array<Sym*, 3> c2_p{&%s[13], &%s[11], &%s[15]};" % (b, b, b),
+            "auto c1 = map<tvector<3, Sym>>(c1_p);",
+            "auto c2 = map<tvector<3, Sym>>(c2_p);",
+            "auto s1 = map_strided<tvector<3, Sym>>(%s + 16, 3);" % b,
+            "auto s2 = map_strided<tvector<3, Sym>>(%s + 17, 3);" % b]
+        mk = lambda name, cells, kind: Operand(name, ("vec", 3), [(b, c) for c in cells], True, kind)
+        a1, a2, a3 = mk("a1", (0, 1, 2), "view:map"), mk("a2", (4, 5, 6), "view:map"), mk("a3", (8, 9, 10), "view:map")
+        c1, c2 = mk("c1", (12, 3, 14), "view:coalesced"), mk("c2", (13, 11, 15), "view:coalesced")
+        s1, s2 = mk("s1", (16, 19, 22), "view:strided_coalesced"), mk("s2", (17, 20, 23), "view:strided_coalesced")
+        P.operands += [a1, a2, a3, c1, c2, s1, s2]
+        P.kinds |= {"view:map", "view:coalesced", "view:strided_coalesced"}
+        L = lambda o: ("leaf", o)
+        P.stmts.append(("a1 = a2;", a1, "=", L(a2)))                      # View::operator=(const View&)
+        P.stmts.append(("a2 = std::move(a3);", a2, "=", L(a3)))           # View::operator=(View&&)
+        P.stmts.append(("c1 = c2;", c1, "=", L(c2)))                      # CoalescedViewBase::operator=(const CoalescedViewBase&)
+        P.stmts.append(("c1 *= %s;" % k, c1, "*=", tk))
+        P.stmts.append(("c2 /= %s;" % k, c2, "/=", tk))
+        P.stmts.append(("c2 /= 2;", c2, "/=", ("c", Fraction(2))))
+        P.stmts.append(("s1 /= %s;" % k, s1, "/=", tk))
+        P.stmts.append(("s1 *= 3;", s1, "*=", ("c", Fraction(3))))
+        P.stmts.append(("s2 = s1;", s2, "=", L(s1)))
+        P.stmts.append(("s2 -= c1;", s2, "-=", L(c1)))
 
     def runtime_statement(self, P, family):
         """containers with a reduced operator set (only what they offer): element-wise statements, aliasing included"""
@@ -577,7 +819,9 @@ class Gen:
 
 
 FORCED = ["a=a+b", "a+=2*a", "s=deviator(s)", "v=m*v", "v=v*m", "m=m*n", "t=transpose(t)", "view=f(storage)",
-          "shifted-overlap", "row=row+col", "a/=2", "rt:vector", "rt:matrix", "rt:runtime_array", "rt:fsarray"]
+          "shifted-overlap", "row=row+col", "a/=2", "rt:vector", "rt:matrix", "rt:runtime_array", "rt:fsarray",
+          "x:expr-access", "x:diadic-det-cross", "x:ctors-vec", "x:ctors-mat", "x:array-index", "x:runtime-view",
+          "x:const-views", "x:view-assign"]
 
 
 # ------------------------------------------------------------------ eager semantics
@@ -619,7 +863,42 @@ def eval_tree(t, state):
         a = eval_tree(t[1], state)
         tr3 = div(ssum(a[:3]), ("c", Fraction(3)))
         return [sub(a[i], tr3) if i < 3 else a[i] for i in range(len(a))]
+    if k == "comp":        # one component (logical order) of an expression: `(expr)[k]`, `(expr)(i, j)`
+        return [eval_tree(t[1], state)[t[2]]]
+    if k == "list":        # explicit scalar values (cells read before the statement, scalars, constants)
+        return [subst(x, state) for x in t[1]]
+    if k == "diadic":      # a ^ b: (i, j) -> a_i * b_j
+        a, b = eval_tree(t[1], state), eval_tree(t[2], state)
+        return [mul(x, y) for x in a for y in b]
+    if k == "mtranspose":  # transpose of a tmatrix<N, M>: component (j, i) of the result is (i, j) of the operand
+        a = eval_tree(t[1], state)
+        N, M = t[2], t[3]
+        return [a[i * M + j] for j in range(M) for i in range(N)]
+    if k == "det":
+        a = eval_tree(t[1], state)
+        if len(a) == 4:
+            return [sub(mul(a[0], a[3]), mul(a[2], a[1]))]
+        m = lambda i, j: a[3 * i + j]
+        minor = lambda i, j, p, q: sub(mul(m(1, i), m(2, j)), mul(m(1, p), m(2, q)))
+        return [add(sub(mul(m(0, 0), minor(1, 2, 2, 1)), mul(m(0, 1), minor(0, 2, 2, 0))), mul(m(0, 2), minor(0, 1, 1, 0)))]
+    if k == "cross":
+        a, b = eval_tree(t[1], state), eval_tree(t[2], state)
+        if len(a) == 2:
+            return [("c", Fraction(0)), ("c", Fraction(0)), sub(mul(a[0], b[1]), mul(a[1], b[0]))]
+        return [sub(mul(a[1], b[2]), mul(a[2], b[1])), sub(mul(a[2], b[0]), mul(a[0], b[2])), sub(mul(a[0], b[1]), mul(a[1], b[0]))]
     raise ValueError(k)
+
+
+def subst(e, state):
+    """scalar tree with ('cell', (storage, index)) leaves -> the cell values of `state`"""
+    k = e[0]
+    if k == "cell":
+        return state[e[1]]
+    if k in ("in", "c"):
+        return e
+    if k == "neg":
+        return neg(subst(e[1], state))
+    return (k, subst(e[1], state), subst(e[2], state))
 
 
 def tree_shape(t):
@@ -643,7 +922,7 @@ def tree_shape(t):
     raise ValueError(k)
 
 
-NON_ELEMENTWISE = ("matvec", "vecmat", "matmat", "transpose", "deviator")
+NON_ELEMENTWISE = ("matvec", "vecmat", "matmat", "transpose", "deviator", "diadic", "cross")
 
 
 def leaves(t, path=()):
@@ -654,6 +933,10 @@ def leaves(t, path=()):
         yield from leaves(t[2], path)
     elif k == "divs":
         yield from leaves(t[1], path)
+    elif k == "list":
+        return   # values copied into temporaries before the statement: no lazy read of the destination
+    elif k in ("comp", "mtranspose", "det"):
+        yield from leaves(t[1], path + ((k,) if k != "comp" else ()))
     else:
         p = path + ((k,) if k in NON_ELEMENTWISE else ())
         for s in t[1:]:
